@@ -48,6 +48,13 @@ func tText(c context, s []byte) (context, int) {
 		}
 		j, e := eatTagName(s, i)
 		if j != i {
+			if j < len(s) && bytes.IndexByte(tagEndSeparators, s[j]) == -1 {
+				// An HTML tokenizer continues the tag name up to white space, '/' or '>'.
+				return context{
+					state: stateError,
+					err:   errorf(ErrBadHTML, nil, 0, "expected space, attr name, or end of tag, but got %q", s[j:]),
+				}, len(s)
+			}
 			// We've found an HTML tag.
 			ret := context{state: stateTag}
 			// Element name not needed if we are at the end of the element.
